@@ -60,7 +60,18 @@ def gen_cases(seed_, n):
                 return nd
             models = [["Root", [node(rng.randint(1, 2))]]]
             opts["merge"] = rng.choice([[["exact"]], [["percent", 0.7], ["number", 10]], [["percent", 0.7]]])
-        if rng.random() < 0.25:
+        if i % 16 == 7:
+            # two or three user-named root models of the same shape, so they merge into one class whose name is built from the given
+            # names; the names are related by case only, by containment, or not at all
+            names = rng.choice([["Item", "ITEMS"], ["User", "USERDATA"], ["Order", "order_Line"], ["Point", "POINT"], ["item", "Item"],
+                                ["Node", "NODES", "nodeList"], ["Alpha", "Beta"], ["Account", "ACCOUNT_Owner", "Owner"]])
+            shape = {f"f{x}": rng.choice([1, "t", 2.5, True, [1]]) for x in range(rng.randint(2, 5))}
+            models = [[nm, [dict(shape), dict(shape)][: rng.randint(1, 2)]] for nm in names]
+            if rng.random() < 0.5:
+                models[-1][1][0] = dict(models[-1][1][0], extra_field=1)
+            opts["merge"] = rng.choice([[["exact"]], [["percent", 0.7], ["number", 10]], [["percent", 0.5]]])
+            opts["dkr"], opts["dkf"] = [], []
+        elif rng.random() < 0.25:
             jc2 = gen.json_case(rng, profile="merge")
             models.append(["Second", jc2["samples"]])
         cases.append({"i": i, "models": models, "opts": opts})
